@@ -633,7 +633,11 @@ def _contains(token: Token, left: object, right: object) -> bool:
     if isinstance(left, str):
         return str(right) in left
     if isinstance(left, Collection):
-        return right in left
+        try:
+            return right in left
+        except TypeError:
+            # An unhashable right operand can't be a key of a hash or set.
+            return False
 
     raise LiquidTypeError(
         f"'in' and 'contains' are not supported between '{left.__class__.__name__}' "
